@@ -129,7 +129,20 @@ func runScenario(sc scenario) (msg string, nlines int, nwrites int) {
 		b, _ := os.ReadFile(d.outPath)
 		return strings.Count(string(b), "\n")
 	}
-	for count() < want && time.Now().Before(deadline) {
+	// wait until everything expected has been written, or the output has stopped growing for 5 s
+	// (then whatever is missing was lost, not merely late), or 90 s
+	deadline = time.Now().Add(90 * time.Second)
+	last, lastChange := -1, time.Now()
+	for time.Now().Before(deadline) {
+		c := count()
+		if c >= want {
+			break
+		}
+		if c != last {
+			last, lastChange = c, time.Now()
+		} else if time.Since(lastChange) > 5*time.Second {
+			break
+		}
 		time.Sleep(10 * time.Millisecond)
 	}
 	time.Sleep(100 * time.Millisecond) // anything written twice would show up now
